@@ -132,6 +132,7 @@ impl Args {
         Rng::new(self.seed.wrapping_mul(0x1000_0000_01B3) ^ suite_tag ^ (self.shard << 48))
     }
     pub fn writer(&self) -> Out {
+        watchdog::start();
         Out {
             w: std::io::BufWriter::with_capacity(
                 1 << 20,
@@ -166,6 +167,7 @@ impl Out {
         Out { w: std::io::BufWriter::new(std::fs::File::create("/dev/null").expect("sink")), written: 0 }
     }
     fn put(&mut self, prefix: &str, line: &str) {
+        watchdog::beat(prefix, line);
         self.written += (prefix.len() + line.len() + 1) as u64;
         if self.written > OUT_LIMIT {
             let _ = self.w.flush();
@@ -224,4 +226,61 @@ pub fn map_positions(decoded: &[stun_rs::StunAttribute], wire: &[(u16, Vec<u8>)]
         out.push(found?);
     }
     Some(out)
+}
+
+
+/// A changed implementation can make a call never return (e.g. a timer loop that re-arms and pops the same entry for ever).
+/// The suites run every call on the main thread; this watchdog notices that no record has been written for a long time,
+/// prints the history that was being run (the lines since the last `H` / `C` record) and ends the process with exit code 4,
+/// which tools/check.py turns into a failing input ("the call that follows this history does not return").
+pub mod watchdog {
+    use std::sync::atomic::{AtomicBool, AtomicU64, Ordering};
+    use std::sync::Mutex;
+    static BEAT: AtomicU64 = AtomicU64::new(0);
+    static STARTED: AtomicBool = AtomicBool::new(false);
+    static CASE: Mutex<Vec<String>> = Mutex::new(Vec::new());
+    const LIMIT_SECS: u64 = 90;
+
+    pub fn beat(prefix: &str, line: &str) {
+        BEAT.fetch_add(1, Ordering::Relaxed);
+        if prefix.is_empty() {
+            if let Ok(mut c) = CASE.lock() {
+                if line.starts_with("H ") || line.starts_with("C ") {
+                    c.clear();
+                }
+                if c.len() < 4000 {
+                    c.push(line.to_string());
+                }
+            }
+        }
+    }
+
+    pub fn start() {
+        if STARTED.swap(true, Ordering::SeqCst) {
+            return;
+        }
+        std::thread::spawn(|| {
+            let mut last = BEAT.load(Ordering::Relaxed);
+            let mut idle = 0u64;
+            loop {
+                std::thread::sleep(std::time::Duration::from_secs(1));
+                let now = BEAT.load(Ordering::Relaxed);
+                if now != last {
+                    last = now;
+                    idle = 0;
+                    continue;
+                }
+                idle += 1;
+                if idle >= LIMIT_SECS && now > 0 {
+                    eprintln!("harness: no progress for {} s: the call that follows this history does not return", LIMIT_SECS);
+                    if let Ok(c) = CASE.lock() {
+                        for l in c.iter() {
+                            eprintln!("HANGCASE {}", l);
+                        }
+                    }
+                    std::process::exit(4);
+                }
+            }
+        });
+    }
 }
